@@ -7,7 +7,7 @@
     chars node is its [chars]; [verb_part vb part] is the text of a returned
     list; all theorems quantify over every list (no well-formedness needed
     unless stated), every matcher / option. *)
-From Coq Require Import NArith ZArith List Bool Arith.
+From Coq Require Import NArith ZArith List Bool Arith Lia.
 From PLV Require Import Base.PyStr Base.Wire Parse.Nodes Tree.Split Proofs.SplitProofs.
 Import ListNotations.
 
@@ -88,16 +88,26 @@ Theorem C18_positions_source : forall src m ms keep skipnone lm list_end l parts
   Forall (fun part => Forall (chars_agrees src) (node_items part)) parts.
 Proof. exact split_positions. Qed.
 
-(** Spans of the returned lists.  FULL STATEMENT (not proved): for a list whose
-    nodes tile [pos, pos_end) (C01), every returned list [NList a b items]
-    has [items] tiling [a, b), consecutive parts are separated exactly by one
-    separator match (keep_empty) and the first / last part touch the ends of
-    the list.  PROVED: every returned list is [flush items pe] — [pos] is the
-    [pos] of its first node, or [pe] when empty — where [pe] is the start of a
-    separator match inside a chars node of the list, or the end of the list.
-    Missing: that [pe] is the end of the last node of [items] (needs the
-    adjacency invariant of C01 threaded through both loops). *)
-Theorem C18_list_spans_partial : forall m ms keep skipnone lm list_end l parts,
+(** Spans of the returned lists: if the nodes of the list tile [a, b) (each
+    node starts where the previous one ended — C01 — and chars nodes are as
+    long as their text; [None] entries transparent) and [pos_end = b], then
+    every returned list [NList ps pe items] has [pe = Some b'], its [items]
+    tile [a', b') and [ps = Some a'] (unless it holds [None] entries only). *)
+Theorem C18_list_spans : forall m ms keep skipnone lm a b l parts,
+  matcher_ok m -> tiled a b l ->
+  split_at_chars m ms keep skipnone lm (Some b) l = Ok parts ->
+  Forall part_tiled parts.
+Proof. exact split_list_spans. Qed.
+
+(** Adjacency of consecutive returned lists.  FULL STATEMENT (not proved):
+    [pos] of part k+1 = [pos_end] of part k + length of the separator matched
+    there, first part starts at [pos] of the list (keep_empty).  PROVED: every
+    returned list is [flush items pe] where [pe] is the start of a separator
+    match inside a top-level chars node of the list, or the end of the list
+    (for the last one).  The textual form of the full statement is
+    [C18_matcher]; the positional form is checked on the real values by the
+    oracle only. *)
+Theorem C18_part_adjacency_partial : forall m ms keep skipnone lm list_end l parts,
   split_at_chars m ms keep skipnone lm list_end l = Ok parts ->
   Forall (part_span m list_end l) parts.
 Proof. exact split_part_spans. Qed.
@@ -217,13 +227,22 @@ Example C18_split_nonvacuous :
                  /\ length parts = 3) /\
   (exists parts, split_at_chars (m_lit [44%N]) None false true text_mode (Some 14) ex_list = Ok parts
                  /\ length parts = 3) /\
-  matcher_ok (m_lit [44%N]) /\
+  matcher_ok (m_lit [44%N]) /\ tiled 0 14 ex_list /\
   split_at_chars (m_lit []) None true true text_mode (Some 14) ex_list = Exn EValue.
 Proof.
   split; [eexists; split; [vm_compute; reflexivity | reflexivity]|].
   split; [eexists; split; [vm_compute; reflexivity | reflexivity]|].
   split; [eexists; split; [vm_compute; reflexivity | reflexivity]|].
-  split; [apply m_lit_ok; discriminate | vm_compute; reflexivity].
+  split; [apply m_lit_ok; discriminate|].
+  split; [|vm_compute; reflexivity].
+  unfold ex_list, c, g. cbn.
+  repeat match goal with
+         | |- _ /\ _ => split
+         | |- exists _, _ => eexists
+         | |- _ = _ => reflexivity
+         | |- _ <= _ => lia
+         | |- True => exact I
+         end.
 Qed.
 
 (** [a=1,a=2,a=3] under every policy: 'first' keeps the first value as a node
@@ -252,7 +271,8 @@ Print Assumptions C18_max_split_prefix.
 Print Assumptions C18_max_split_remainder.
 Print Assumptions C18_positions.
 Print Assumptions C18_positions_source.
-Print Assumptions C18_list_spans_partial.
+Print Assumptions C18_list_spans.
+Print Assumptions C18_part_adjacency_partial.
 Print Assumptions C18_children_opaque.
 Print Assumptions C18_no_chars_no_split.
 Print Assumptions C18_literal_matcher_ok.
